@@ -11,7 +11,8 @@
     File_Close  : f->file is NULL → throw IOError;  err = fclose(f->file);  f->file = NULL;  err != 0 → throw IOError
     File_Seek / File_Tell / File_Flush / File_EOF / File_Read / File_Write / File_Format_To / File_Format_From :
                   f->file is NULL → throw IOError;  one stdio call;  error translation
-    Instance(Start, NULL, File_Close, NULL) : stop = File_Close;  with(f in x) = start_in(x); body; stop_in(x)
+    Instance(Start, NULL, File_Close, NULL) : stop = File_Close;  with(f in S) = the for loop of `with_in`, clause by clause
+  (section "The `with` construct": `execStmt`, source expressions with side effects, break / continue / exception)
 
   The File object is `Option Handle` (`none` = the FILE* is NULL).  Every wrapper returns the new library state, the
   new object, the outcome and **the list of stdio calls it made**; the properties of C20 are statements about
@@ -380,6 +381,199 @@ def isOpenOk : Call → Bool
 
 def isClose : Call → Bool
   | .on .fclose _ => true
+  | _ => false
+
+/-! ### The `with` construct
+
+  include/Cello.h:   #define with_in(X, S) for(var X = start_in(S); X isnt NULL; X = stop_in(X))
+  src/Start.c:       start_in(self): call the type's `start` if it has one (File has none);  return self
+                     stop_in(self):  call the type's `stop`  if it has one (File: File_Close); return NULL
+
+  `with (f in S) { body }` is therefore a C `for` loop of three clauses, modelled clause by clause:
+    init       var X = start_in(S)   the source expression S is evaluated HERE, once, and its value bound to X
+    condition  X isnt NULL           true after the init clause, false after the step clause: the body runs once
+    step       X = stop_in(X)        stops the object the loop variable holds; never looks at S again
+  A body that falls off its end or executes `continue` reaches the step clause; `break` and an exception leave the
+  loop without it (the stream stays open: that is what the macro does).  S is an expression and may have side effects:
+  `with (f in new(File, $S(path), $S("w")))` (the idiom of the documentation of File and Show) constructs a File every
+  time it is evaluated.  `WithCfg` records which expression the step clause hands to stop_in, as the translator reads
+  it from the header; `WithCfg.reeval` is the variant `X = stop_in(S)`. -/
+
+/-- the argument of stop_in in the step clause -/
+inductive WArg where
+  | bound        -- the loop variable X
+  | source       -- the macro argument S: the source expression is evaluated a second time
+deriving DecidableEq, Repr, Inhabited
+
+structure WithCfg where
+  stepArg : WArg
+deriving DecidableEq, Repr, Inhabited
+
+def WithCfg.fixed : WithCfg := ⟨.bound⟩
+def WithCfg.reeval : WithCfg := ⟨.source⟩
+
+/-- source expressions of `with` -/
+inductive Src where
+  | var (o : Nat)                                       -- a variable that holds an existing object: no side effect
+  | newFile (name : Nat) (args : Option (Nat × Mode))   -- `new(File)` / `new(File, $S(path), $S(mode))` written in the
+                                                        -- header, or a function that does this: EVERY evaluation
+                                                        -- constructs a File (and opens the file when given arguments)
+deriving DecidableEq, Repr, Inhabited
+
+/-- how control leaves the body -/
+inductive Leave where
+  | fall | cont | brk | throw
+deriving DecidableEq, Repr, Inhabited
+
+/-- does the step clause run? -/
+def Leave.runsStep : Leave → Bool
+  | .fall | .cont => true
+  | .brk | .throw => false
+
+/-- statements: an operation on an object, or a with block (bodies nest) -/
+inductive Stmt where
+  | op (o : Nat) (m : MOp)
+  | withIn (src : Src) (body : List Stmt) (leave : Leave)
+deriving Repr, Inhabited
+
+/-- what the loops did, in order -/
+inductive WEv where
+  | eval (src : Src) (res : Option Nat)   -- a source expression was evaluated; `none`: the constructor threw
+  | start (x : Nat)                       -- start_in(x); the body is entered with X = x
+  | stop (x : Nat)                        -- stop_in(x)
+  | left (how : Leave)                    -- the loop was left by break / an exception: no step clause
+deriving DecidableEq, Repr, Inhabited
+
+/-- largest object name in use -/
+def maxKey {α : Type} : List (Nat × α) → Nat
+  | [] => 0
+  | (k, _) :: rest => max k (maxKey rest)
+
+/-- the name a newly constructed object gets: the one the program asks for when it is free, else an unused one
+    (names stand for addresses: `new` never returns the address of an object that exists) -/
+def freshName {α : Type} (objs : List (Nat × α)) (want : Nat) : Nat :=
+  match lookup want objs with
+  | none => want
+  | some _ => maxKey objs + 1
+
+/-- result of one clause: the system afterwards, the clause's value (`none` = NULL, or the clause was left by an
+    exception), the outcome, the stdio calls and the loop events it produced -/
+structure ClauseR (σ : Type) where
+  m : Multi σ
+  x : Option Nat
+  out : Out Val
+  calls : List Call
+  evs : List WEv
+
+section With
+variable {σ : Type} (io : Stdio σ)
+
+/-- one operation, also handing back what the wrapper returned (`none`: not applicable) -/
+def Multi.stepO (cfg : Cfg) (s : Multi σ) (o : Nat) (m : MOp) : Multi σ × Option (R σ Val) :=
+  match s.stepR io cfg o m with
+  | none => (s, none)
+  | some (r, keep) => (s.apply o r keep, some r)
+
+/-- evaluate a source expression -/
+def evalSrc (cfg : Cfg) (s : Multi σ) : Src → ClauseR σ
+  | .var o =>
+    match lookup o s.objs with
+    | some _ => ⟨s, some o, .ok .unit, [], [.eval (.var o) (some o)]⟩
+    | none => ⟨s, none, .ub, [], [.eval (.var o) none]⟩                -- a variable that holds no object
+  | .newFile name args =>
+    let n := freshName s.objs name
+    match Multi.stepO io cfg s n (.new args) with
+    | (s', some r) =>
+      let res := match r.out with | .ok _ => some n | _ => none          -- a constructor that throws returns nothing
+      ⟨s', res, r.out, r.calls, [.eval (.newFile name args) res]⟩
+    | (s', none) => ⟨s', none, .ub, [], [.eval (.newFile name args) none]⟩
+
+/-- init clause `var X = start_in(S)`: evaluate S; start_in calls the type's `start` (File has none: `Op.withEnter`
+    makes no stdio call) and returns its argument -/
+def initClause (cfg : Cfg) (s : Multi σ) (src : Src) : ClauseR σ :=
+  let e := evalSrc io cfg s src
+  match e.x with
+  | none => e
+  | some x => ⟨e.m.step io cfg x (.op .withEnter), some x, e.out, e.calls, e.evs ++ [.start x]⟩
+
+/-- `stop_in(y)`: the type's `stop` (File_Close), then `return NULL` -/
+def stopIn (cfg : Cfg) (s : Multi σ) (y : Nat) (calls0 : List Call) (evs0 : List WEv) : ClauseR σ :=
+  match Multi.stepO io cfg s y (.op .withExit) with
+  | (s', some r) => ⟨s', none, r.out, calls0 ++ r.calls, evs0 ++ [.stop y]⟩
+  | (s', none) => ⟨s', none, .ub, calls0, evs0 ++ [.stop y]⟩
+
+/-- step clause `X = stop_in(<stepArg>)` with X = `x` -/
+def stepClause (cfg : Cfg) (w : WithCfg) (s : Multi σ) (src : Src) (x : Nat) : ClauseR σ :=
+  match w.stepArg with
+  | .bound => stopIn io cfg s x [] []
+  | .source =>
+    let e := evalSrc io cfg s src                        -- S again
+    match e.x with
+    | none => e                                          -- its constructor threw: the exception leaves the loop
+    | some y => stopIn io cfg e.m y e.calls e.evs
+
+/-- the system while a program runs: the objects and the library, and the events of the loops so far -/
+structure WSys (σ : Type) where
+  m : Multi σ
+  ev : List WEv
+
+mutual
+/-- one statement.  A with block is the `for` loop: init clause; condition; body; then, unless the body was left by
+    break / an exception, the step clause; the condition again (X is NULL now) ends the loop. -/
+def execStmt (cfg : Cfg) (w : WithCfg) : Stmt → WSys σ → WSys σ
+  | .op o m, s => ⟨s.m.step io cfg o m, s.ev⟩
+  | .withIn src body leave, s =>
+    let i := initClause io cfg s.m src
+    match i.x with
+    | none => ⟨i.m, s.ev ++ i.evs⟩                       -- the init clause threw: the loop is never entered
+    | some x =>
+      let b := execList cfg w body ⟨i.m, s.ev ++ i.evs⟩
+      if leave.runsStep then
+        let c := stepClause io cfg w b.m src x
+        ⟨c.m, b.ev ++ c.evs⟩
+      else ⟨b.m, b.ev ++ [.left leave]⟩
+def execList (cfg : Cfg) (w : WithCfg) : List Stmt → WSys σ → WSys σ
+  | [], s => s
+  | st :: rest, s => execList cfg w rest (execStmt cfg w st s)
+end
+
+end With
+
+/-- **What a well-formed run of with blocks looks like.**  State: the loop variables of the blocks being executed
+    (innermost first) and the value an init clause has just evaluated.  Every evaluation that yields an object is
+    followed at once by start_in of exactly that object (so an evaluation in a step clause is rejected: the source
+    expression is evaluated once per block), every stop_in is on the loop variable of the innermost block and ends it,
+    break / exception end it without stop_in. -/
+def wtrackEv : List Nat × Option Nat → WEv → Option (List Nat × Option Nat)
+  | (st, none), .eval _ none => some (st, none)
+  | (st, none), .eval _ (some x) => some (st, some x)
+  | (st, some x), .start y => if y = x then some (x :: st, none) else none
+  | (x :: st, none), .stop y => if y = x then some (st, none) else none
+  | (_ :: st, none), .left _ => some (st, none)
+  | _, _ => none
+
+def wtrack : List Nat × Option Nat → List WEv → Option (List Nat × Option Nat)
+  | c, [] => some c
+  | c, e :: es => match wtrackEv c e with
+    | some c' => wtrack c' es
+    | none => none
+
+def isEval : WEv → Bool
+  | .eval _ _ => true
+  | _ => false
+
+def isStart : WEv → Bool
+  | .start _ => true
+  | _ => false
+
+def isEvalFail : WEv → Bool
+  | .eval _ none => true
+  | _ => false
+
+/-- a block was left: by its step clause, or by break / an exception -/
+def isExit : WEv → Bool
+  | .stop _ => true
+  | .left _ => true
   | _ => false
 
 /-! ### Reference stdio: byte files, positions, end-of-file flags -/
